@@ -13,11 +13,19 @@
 //
 // The same call expression is compiled once for the tetl object and once for the model
 // (template over a "side"), so the two can not drift apart.
+//
+// Pre-screening: a string call that writes out of bounds damages the stack or the heap of the
+// process that executes it, often without faulting.  Every mutating call is therefore executed and
+// checked in a forked worker process first (one request per state, all its candidate calls; binary
+// calls once per ordered pair).  Only calls that returned there with the right result and intact
+// invariants are executed in the exploring process; for the others the worker's finding is reported
+// (wrong result as C04, fatal signal / hang as C02) and the call is not executed again.
 #include "explore.hpp"
 
 #include <etl/string.hpp>
 #include <etl/string_view.hpp>
 
+#include <array>
 #include <memory>
 #include <stdexcept>
 #include <string>
@@ -260,7 +268,8 @@ struct Action {
     long j{0}, d{0}; // pos2 / count2 inside the argument string; -1 = npos
     int l{0};        // letter
     bool clamp{false};
-    int pre{0};      // result of the forked pre-screening: 0 returns, otherwise the mc::Trap that ended it (9: child died)
+    int pre{0};      // result of the forked pre-screening: 0 passes, 3/4 fatal signal/hang (mc::Trap), 9 the worker died, 7 wrong result
+    int fail_id{-1}; // pre == 7: index of the failure record taken over from the worker
 };
 
 struct Res {
@@ -345,9 +354,31 @@ struct StrSys {
         return names[std::size_t(a.k)];
     }
     // cx.fail() renders the whole history; do that only for the first witness of a (property, subject, class)
+    // In the pre-screening worker (capture mode) the first failure of the running action goes to `slot`
+    // instead: the worker hands it to the exploring process, which reports it without executing the call.
+    struct FailSlot {
+        bool set{false};
+        bool oob{false}; // size()/terminator invariant broken, or a trap: memory may be damaged
+        std::string prop, cls, detail;
+    };
+    mutable FailSlot slot;
+    mutable bool capture{false};
+    mutable std::unordered_set<std::string> capture_seen;
+
     template <typename F>
-    static void ffail(Cx& cx, char const* prop, std::string const& subj, std::string const& cl, F detail)
+    void ffail(Cx& cx, char const* prop, std::string const& subj, std::string const& cl, F detail) const
     {
+        if (capture) {
+            cx.failed = true;
+            if (!slot.set) {
+                slot.set  = true;
+                slot.prop = prop;
+                slot.cls  = cl;
+                slot.detail.clear();
+                if (capture_seen.insert(cat(prop, "|", subj, "|", cl)).second) { slot.detail = detail(); }
+            }
+            return;
+        }
         auto it = cx.r.viols.find(std::make_tuple(std::string(prop), subj, cl));
         if (it != cx.r.viols.end()) {
             cx.failed = true;
@@ -927,68 +958,134 @@ struct StrSys {
         prescreen(st, out);
     }
 
-    // Pre-screening: every candidate action of this state is first executed in a forked child.
-    // A call that ends in a fatal signal, a hang or a dead process there is not executed in this
-    // process at all (a wild write may have damaged the heap long before the signal arrives);
-    // apply() reports it as a C02 violation instead.
+    // Pre-screening: every candidate action of a state is first executed, and checked, in a forked
+    // worker process.  Only calls that returned there with the right result and intact invariants are
+    // executed in the exploring process; for the others the worker's finding is reported (a fatal signal
+    // or hang as C02, a wrong result as found), because a call that writes out of bounds may have damaged
+    // the heap or the stack long before anything faults.  After a trap or a broken size/terminator
+    // invariant the worker is replaced by a fresh one.
     using CrashSig = std::tuple<int, bool, bool, bool, bool>;
     static CrashSig crash_sig(Action const& a) { return CrashSig{a.k, a.c < 0, a.d < 0, a.i > 0, a.j > 0}; }
-    mutable std::map<CrashSig, int> crash_count;
+    mutable std::map<CrashSig, int> crash_count; // events that cost one worker each
     mutable std::uint64_t skipped_after_crash{0};
-    mutable std::uint64_t forks{0};
+    mutable std::uint64_t screen_requests{0};
+    static constexpr int crash_limit = 3;  // fatal signal / hang / dead worker
+    static constexpr int oob_limit   = 24; // broken invariant (worker replaced)
+    static bool quarantined(int n) { return n >= oob_limit * 4; }
+
+    struct FailRecord {
+        std::string prop, cls, detail;
+    };
+    mutable std::vector<FailRecord> fail_records;
+    mutable std::map<std::tuple<std::string, int, std::string>, int> fail_index;
+    int intern_failure(std::string const& prop, int kind, std::string const& cls, std::string const& detail) const
+    {
+        auto key = std::make_tuple(prop, kind, cls);
+        auto it  = fail_index.find(key);
+        if (it != fail_index.end()) { return it->second; }
+        fail_records.push_back(FailRecord{prop, cls, detail});
+        int const id = int(fail_records.size()) - 1;
+        fail_index.emplace(std::move(key), id);
+        return id;
+    }
 
     void prescreen(State const& st, std::vector<Action>& acts) const
     {
-        // An argument shape (kind, count==npos, count2==npos, index>0, pos2>0) that has already killed
-        // three children is not tried again in this job: every further crash costs one fork.  The
-        // three recorded witnesses stay violations; the calls skipped here are counted.
+        // An argument shape (kind, count==npos, count2==npos, index>0, pos2>0) that has cost too many
+        // workers is not tried again in this job.  The recorded witnesses stay violations; the calls
+        // skipped here are counted (calls_skipped_after_crash).
         {
             auto const before = acts.size();
             acts.erase(std::remove_if(acts.begin(), acts.end(),
                            [&](Action const& a) {
                                auto it = crash_count.find(crash_sig(a));
-                               return it != crash_count.end() && it->second >= 3;
+                               return it != crash_count.end() && quarantined(it->second);
                            }),
                 acts.end());
             skipped_after_crash += before - acts.size();
         }
+        screen(st, nullptr, acts, true);
+    }
+
+    // the binary actions of one ordered pair of states are screened together, once, when the first of
+    // them is about to run (rebuilds of histories that contain a binary step find the cached result)
+    struct PairResult {
+        int pre{0};
+        int fail_id{-1};
+    };
+    static constexpr int first_bin = b_swap_member;
+    static constexpr int n_bin     = b_compare - b_swap_member; // the mutating ones
+    mutable std::unordered_map<std::string, std::array<PairResult, std::size_t(n_bin)>> pair_cache;
+    PairResult pair_screen(State const& st, State const& partner, int kind) const
+    {
+        if (zy_req < 0 || capture) { return PairResult{}; }
+        std::string key(reinterpret_cast<char const*>(st.v), sizeof(S));
+        key.append(reinterpret_cast<char const*>(partner.v), sizeof(S));
+        auto it = pair_cache.find(key);
+        if (it == pair_cache.end()) {
+            std::vector<Action> acts;
+            for (int k = first_bin; k < first_bin + n_bin; ++k) {
+                Action a;
+                a.k = k;
+                acts.push_back(a);
+            }
+            screen(st, &partner, acts, false);
+            std::array<PairResult, std::size_t(n_bin)> res;
+            for (std::size_t k = 0; k < acts.size(); ++k) { res[k] = PairResult{acts[k].pre, acts[k].fail_id}; }
+            it = pair_cache.emplace(std::move(key), res).first;
+        }
+        return it->second[std::size_t(kind - first_bin)];
+    }
+
+    void screen(State const& st, State const* partner, std::vector<Action>& acts, bool may_drop) const
+    {
         if (zy_req < 0) { return; }
         std::size_t start = 0;
         while (start < acts.size()) {
-            // request: [count][model length][object bytes][model characters][actions]
+            // request: [count][model length][partner?][partner model length][object bytes][model characters]([partner ...])[actions]
             std::size_t const batch    = std::min<std::size_t>(acts.size() - start, shm_slots);
-            std::uint32_t const hdr[2] = {std::uint32_t(batch), std::uint32_t(st.m.size())};
+            std::uint32_t const hdr[4] = {std::uint32_t(batch), std::uint32_t(st.m.size()), partner != nullptr ? 1u : 0u,
+                partner != nullptr ? std::uint32_t(partner->m.size()) : 0u};
             zy_shm->done               = 0;
-            bool ok = write_all(zy_req, hdr, sizeof hdr) && write_all(zy_req, st.v, sizeof(S)) && write_all(zy_req, st.m.data(), st.m.size() * sizeof(Char))
-                   && write_all(zy_req, acts.data() + start, batch * sizeof(Action));
+            bool ok = write_all(zy_req, hdr, sizeof hdr) && write_all(zy_req, st.v, sizeof(S)) && write_all(zy_req, st.m.data(), st.m.size() * sizeof(Char));
+            if (ok && partner != nullptr) { ok = write_all(zy_req, partner->v, sizeof(S)) && write_all(zy_req, partner->m.data(), partner->m.size() * sizeof(Char)); }
+            ok = ok && write_all(zy_req, acts.data() + start, batch * sizeof(Action));
             if (!ok) {
                 zy_broken = true;
                 return;
             }
-            ++forks;
+            ++screen_requests;
             unsigned char b = 0;
-            if (!read_all(zy_res, &b, 1) || b != 0xFF) { // 0xFF: the worker is gone (finished or dead)
+            if (!read_all(zy_res, &b, 1) || (b != 0xFF && b != 'K')) { // 'K': batch complete; 0xFF: the worker ended inside the batch
                 zy_broken = true;
                 return;
             }
-            // the worker left one status byte per completed action in the shared page
-            std::size_t n = std::min<std::size_t>(zy_shm->done, batch);
-            bool trapped  = false;
-            if (n > 0 && zy_shm->status[n - 1] != 0) {
-                acts[start + n - 1].pre = int(zy_shm->status[n - 1]);
-                trapped                 = true;
+            // the worker left one record per completed action in the shared pages
+            std::size_t n    = std::min<std::size_t>(zy_shm->done, batch);
+            int event_weight = 0; // this batch ended early: how much it counts against the shape
+            for (std::size_t k = 0; k < n; ++k) {
+                Rec const& rc = const_cast<Rec const&>(zy_shm->recs[k]);
+                Action& a     = acts[start + k];
+                if (rc.status == 7) {
+                    a.pre     = 7;
+                    a.fail_id = intern_failure(std::string(rc.prop), a.k, std::string(rc.cls), std::string(rc.detail));
+                } else if (rc.status != 0) {
+                    a.pre = int(rc.status);
+                }
             }
-            if (n < batch && !trapped) {
+            bool ended_by_last = n > 0 && (zy_shm->recs[n - 1].status == 3 || zy_shm->recs[n - 1].status == 4 || zy_shm->recs[n - 1].oob != 0);
+            if (n > 0 && ended_by_last) { event_weight = (zy_shm->recs[n - 1].status == 7) ? 4 : oob_limit * 4 / crash_limit; }
+            if (n < batch && !ended_by_last) {
                 acts[start + n].pre = 9; // the worker died inside this call without reaching a guard
-                trapped             = true;
+                event_weight        = oob_limit * 4 / crash_limit;
                 ++n;
             }
-            if (trapped) {
-                auto& cnt = crash_count[crash_sig(acts[start + n - 1])];
-                ++cnt;
-                if (cnt >= 3) {
+            if (event_weight != 0) {
+                auto const sig = crash_sig(acts[start + n - 1]);
+                auto& cnt      = crash_count[sig];
+                cnt += event_weight;
+                if (may_drop && quarantined(cnt)) {
                     // drop the not yet screened candidates of the same shape
-                    auto const sig    = crash_sig(acts[start + n - 1]);
                     auto const before = acts.size();
                     acts.erase(std::remove_if(acts.begin() + std::ptrdiff_t(start + n), acts.end(), [&](Action const& a) { return crash_sig(a) == sig; }), acts.end());
                     skipped_after_crash += before - acts.size();
@@ -1005,10 +1102,17 @@ struct StrSys {
     mutable int zy_res{-1};
     mutable pid_t zy_pid{-1};
     mutable bool zy_broken{false};
-    static constexpr std::size_t shm_slots = std::size_t(1) << 20;
+    static constexpr std::size_t shm_slots = std::size_t(1) << 16;
+    struct Rec {
+        unsigned char status; // 0 passed, 3 fatal signal, 4 hang, 7 wrong result
+        unsigned char oob;    // the worker ends after this action
+        char prop[6];
+        char cls[56];
+        char detail[192];
+    };
     struct Shm {
         volatile std::uint32_t done;
-        volatile unsigned char status[shm_slots];
+        Rec recs[shm_slots];
     };
     mutable Shm* zy_shm{nullptr};
 
@@ -1067,46 +1171,75 @@ struct StrSys {
         close(res[0]);
         if (int const nul = open("/dev/null", O_WRONLY); nul >= 0) { dup2(nul, 2); } // the workers' MC-FATAL lines are expected
         signal(SIGPIPE, SIG_DFL);
-        std::vector<Action> acts;
-        std::vector<Char> chars;
-        alignas(16) unsigned char obj[sizeof(S)];
+        // The zygote only supervises: it keeps one worker alive.  The worker serves requests until a
+        // call traps or breaks an invariant (then it exits and a fresh one takes over); when a worker
+        // ends inside a batch the zygote writes 0xFF, a completed batch is acknowledged by the worker ('K').
         while (true) {
-            std::uint32_t hdr[2];
-            if (!read_all(req[0], hdr, sizeof hdr)) { std::_Exit(0); }
-            acts.resize(hdr[0]);
-            chars.resize(hdr[1]);
-            if (!read_all(req[0], obj, sizeof(S)) || !read_all(req[0], chars.data(), chars.size() * sizeof(Char))
-                || !read_all(req[0], acts.data(), acts.size() * sizeof(Action))) {
-                std::_Exit(0);
-            }
             pid_t const w = fork();
-            if (w == 0) {
-                close(req[0]);
-                mc::traps().hang_ticks = 10;
-                mc::install_signal_handlers(); // interval timers are not inherited
-                for (std::size_t k = 0; k < acts.size(); ++k) {
-                    mc::Trap const t = mc::guarded([&] {
-                        State copy(0xAA);
-                        std::memcpy(static_cast<void*>(copy.v), static_cast<void const*>(obj), sizeof(S));
-                        copy.m.assign(chars.data(), chars.size());
-                        mc::Reporter scratch;
-                        Cx cx{scratch, [] { return std::string(); }};
-                        apply(copy, acts[k], nullptr, cx);
-                    });
-                    unsigned char b = static_cast<unsigned char>(int(t));
-                    if (t == mc::Trap::assert_fired || t == mc::Trap::exception_raised) { b = 0; } // harmless: reported by the explorer
-                    zy_shm->status[k] = b;
-                    zy_shm->done      = std::uint32_t(k + 1);
-                    if (b != 0) { std::_Exit(0); }
-                }
-                std::_Exit(0);
-            }
+            if (w < 0) { std::_Exit(0); }
+            if (w == 0) { worker(req[0], res[1]); }
             int status = 0;
-            if (w > 0) {
-                while (waitpid(w, &status, 0) < 0 && errno == EINTR) { }
-            }
+            while (waitpid(w, &status, 0) < 0 && errno == EINTR) { }
+            if (WIFEXITED(status) && WEXITSTATUS(status) == 42) { std::_Exit(0); } // request pipe closed: done
             unsigned char const end = 0xFF;
             if (write(res[1], &end, 1) != 1) { std::_Exit(0); }
+        }
+    }
+
+    [[noreturn]] void worker(int reqfd, int resfd)
+    {
+        mc::traps().hang_ticks = 10;
+        mc::install_signal_handlers(); // interval timers are not inherited
+        capture = true;
+        std::vector<Action> acts;
+        std::vector<Char> chars;
+        std::vector<Char> pchars;
+        alignas(16) unsigned char obj[sizeof(S)];
+        alignas(16) unsigned char pobj[sizeof(S)];
+        while (true) {
+            std::uint32_t hdr[4];
+            if (!read_all(reqfd, hdr, sizeof hdr)) { std::_Exit(42); }
+            acts.resize(hdr[0]);
+            chars.resize(hdr[1]);
+            pchars.resize(hdr[3]);
+            bool const has_partner = hdr[2] != 0;
+            if (!read_all(reqfd, obj, sizeof(S)) || !read_all(reqfd, chars.data(), chars.size() * sizeof(Char))) { std::_Exit(42); }
+            if (has_partner && (!read_all(reqfd, pobj, sizeof(S)) || !read_all(reqfd, pchars.data(), pchars.size() * sizeof(Char)))) { std::_Exit(42); }
+            if (!read_all(reqfd, acts.data(), acts.size() * sizeof(Action))) { std::_Exit(42); }
+            for (std::size_t k = 0; k < acts.size(); ++k) {
+                slot = FailSlot{};
+                mc::Trap const t = mc::guarded([&] {
+                    State copy(0xAA);
+                    std::memcpy(static_cast<void*>(copy.v), static_cast<void const*>(obj), sizeof(S));
+                    copy.m.assign(chars.data(), chars.size());
+                    State pcopy(0xAA);
+                    if (has_partner) {
+                        std::memcpy(static_cast<void*>(pcopy.v), static_cast<void const*>(pobj), sizeof(S));
+                        pcopy.m.assign(pchars.data(), pchars.size());
+                    }
+                    mc::Reporter scratch;
+                    Cx cx{scratch, [] { return std::string(); }};
+                    apply(copy, acts[k], has_partner ? &pcopy : nullptr, cx);
+                });
+                Rec& rc   = const_cast<Rec&>(zy_shm->recs[k]);
+                rc.status = 0;
+                rc.oob    = 0;
+                if (t == mc::Trap::crash || t == mc::Trap::hang) {
+                    rc.status = static_cast<unsigned char>(int(t));
+                    rc.oob    = 1;
+                } else if (t == mc::Trap::none && slot.set) {
+                    // (a contract-handler call is harmless: the explorer reports it when it executes the call)
+                    rc.status = 7;
+                    rc.oob    = slot.oob ? 1 : 0;
+                    std::snprintf(rc.prop, sizeof rc.prop, "%s", slot.prop.c_str());
+                    std::snprintf(rc.cls, sizeof rc.cls, "%s", slot.cls.c_str());
+                    std::snprintf(rc.detail, sizeof rc.detail, "%s", slot.detail.c_str());
+                }
+                zy_shm->done = std::uint32_t(k + 1);
+                if (rc.oob != 0) { std::_Exit(0); } // memory may be damaged: a fresh worker continues
+            }
+            unsigned char const okb = 'K';
+            if (write(resfd, &okb, 1) != 1) { std::_Exit(42); }
         }
     }
     void stop_zygote()
@@ -1216,10 +1349,12 @@ struct StrSys {
     bool invariants(Cx& cx, Action const& a, S const& v, std::string const& cl, char const* who) const
     {
         if (v.size() > N) {
+            slot.oob = true;
             ffail(cx, "C04", subject(a), cl, [&] { return cat(who, ": size() = ", v.size(), " > capacity() = ", N); });
             return false;
         }
         if (v.data()[v.size()] != Char(0)) {
+            slot.oob = true;
             ffail(cx, "C04", subject(a), cl, [&] {
                 return cat(who, ": no terminator: data()[size()=", v.size(), "] = ", long(static_cast<std::make_unsigned_t<Char>>(v.data()[v.size()])));
             });
@@ -1245,6 +1380,12 @@ struct StrSys {
 
     void apply(State& s, Action const& a0, State* p, Cx& cx)
     {
+        if (a0.pre == 7) {
+            // the worker executed this call and found it wrong: report its finding, do not execute the call here
+            FailRecord const& fr = fail_records[std::size_t(a0.fail_id)];
+            ffail(cx, fr.prop.c_str(), subject(a0), fr.cls, [&] { return fr.detail + " [observed in the pre-screening process]"; });
+            return;
+        }
         if (a0.pre != 0) {
             char const* what = a0.pre == int(mc::Trap::hang) ? "hang" : "crash";
             ffail(cx, "C02", subject(a0), what, [&] {
@@ -1267,6 +1408,17 @@ struct StrSys {
             if (grows && pre + ppre > N) {
                 if (!allow_clamp) { return; }
                 a.clamp = true;
+            }
+            PairResult const pr = pair_screen(s, *p, a.k);
+            if (pr.pre == 7) {
+                FailRecord const& fr = fail_records[std::size_t(pr.fail_id)];
+                ffail(cx, fr.prop.c_str(), subject(a), fr.cls, [&] { return fr.detail + " [observed in the pre-screening process]"; });
+                return;
+            }
+            if (pr.pre != 0) {
+                ffail(cx, "C02", subject(a), pr.pre == int(mc::Trap::hang) ? "hang" : "crash",
+                    [&] { return std::string("executed in a forked child first: the call did not return normally (not executed in the exploring process)"); });
+                return;
             }
         }
         Res rm;
@@ -1306,7 +1458,8 @@ struct StrSys {
         }
         if (p != nullptr) { same(cx, a, *p->v, p->m, cls(a, pre, post, ppre), "other operand after the call"); }
         if (a.p >= 0 && !mpool[std::size_t(a.p)].untouched()) {
-            cx.fail("C02", subject(a), "source-modified", "the argument range (or the bytes around it) was written to");
+            slot.oob = true;
+            ffail(cx, "C02", subject(a), "source-modified", [&] { return std::string("the argument range (or the bytes around it) was written to"); });
         }
     }
 
@@ -1814,14 +1967,14 @@ void run_config(mc::Reporter& r, Cfg cfg, bool bounded)
     r.count("const_menu_evaluations", sys.queries);
     r.count("evaluations", sys.queries);
     r.count("distinct_contents", sys.seen_content.size());
-    r.count("prescreen_forks", sys.forks);
+    r.count("prescreen_requests", sys.screen_requests);
     if (sys.skipped_after_crash != 0) {
         r.count("calls_skipped_after_crash", sys.skipped_after_crash);
         std::string shapes;
         for (auto const& [sig, n] : sys.crash_count) {
-            if (n >= 3) { shapes += cat(" ", kind_name[std::get<0>(sig)], std::get<1>(sig) ? "/count=npos" : "", std::get<2>(sig) ? "/count2=npos" : "", ";"); }
+            if (Sys::quarantined(n)) { shapes += cat(" ", kind_name[std::get<0>(sig)], std::get<1>(sig) ? "/count=npos" : "", std::get<2>(sig) ? "/count2=npos" : "", ";"); }
         }
-        r.note(cat(sys.name(), ": ", sys.skipped_after_crash, " calls were not executed because three calls of the same shape had crashed before (each is a C02 violation):", shapes));
+        r.note(cat(sys.name(), ": ", sys.skipped_after_crash, " calls were not executed because calls of the same shape had crashed or broken the size/terminator invariant before (reported as violations):", shapes));
     }
     r.note(cat(sys.name(), ": alphabet ", mc::show_seq(cfg.letters), ", argument strings <= ", cfg.L, ", needles <= ", cfg.QL, cfg.sparse ? ", boundary-value arguments" : ", all arguments",
         ", const-menu evaluations=", sys.queries, ", distinct contents=", sys.seen_content.size()));
